@@ -11,6 +11,7 @@
 -/
 import RoProofs.Chain
 import RoGen.Catalogue
+import RoGen.Ctors
 namespace Ro.C02b
 open Ro.Facts
 
@@ -48,9 +49,29 @@ theorem passthrough_regression :
 example : (do let a ← row "MergeAll"; let b ← row "MapIWithContext"; pure (a.multiFeeder, emitMode [a, b]))
     = some (true, some Ctor.safeC) := by decide
 
+/-! ### what "built with the default / safe constructor" means (regenerated from observable.go / subscriber.go, go/extract/ctors.go) -/
+
+/-- every public constructor ends up with the concurrency mode its name says; the default ones (`NewObservable`,
+    `NewObservableWithContext`, `NewSubscriber`) are the safe ones -/
+theorem ctor_modes : RoGen.Ctors.ctorModes = [
+    ("NewEventuallySafeObservable", "EventuallySafe"), ("NewEventuallySafeObservableWithContext", "EventuallySafe"),
+    ("NewEventuallySafeSubscriber", "EventuallySafe"),
+    ("NewObservable", "Safe"), ("NewObservableWithConcurrencyMode", "param"), ("NewObservableWithContext", "Safe"),
+    ("NewSafeObservable", "Safe"), ("NewSafeObservableWithContext", "Safe"), ("NewSafeSubscriber", "Safe"), ("NewSubscriber", "Safe"),
+    ("NewSubscriberWithConcurrencyMode", "param"),
+    ("NewUnsafeObservable", "Unsafe"), ("NewUnsafeObservableWithContext", "Unsafe"), ("NewUnsafeSubscriber", "Unsafe")] := by decide
+
+/-- safe = a real mutex and a blocking producer; unsafe = no lock; eventually-safe = a real mutex taken with TryLock, the value
+    dropped when it is busy (the three modes of the kernel model, RoModel/Kernel/Conc.lean) -/
+theorem mode_impl : RoGen.Ctors.modeImpl = [
+    ("Safe", "NewMutexWithLock", "BackpressureBlock"), ("Unsafe", "NewMutexWithoutLock", "BackpressureBlock"),
+    ("EventuallySafe", "NewMutexWithLock", "BackpressureDrop")] := by decide
+
 end Ro.C02b
 
 #print axioms Ro.C02b.table_ok
+#print axioms Ro.C02b.ctor_modes
+#print axioms Ro.C02b.mode_impl
 #print axioms Ro.C02b.table_strict
 #print axioms Ro.C02b.chain_serialized
 #print axioms Ro.C02b.chain_serialized_table
